@@ -959,8 +959,8 @@ Qed.
 Lemma dist_ok_bd m v mk1 mk2 : map bd (m_bis mk1) = map bd (m_bis mk2) -> dist_ok m v mk1 = dist_ok m v mk2.
 Proof.
   unfold dist_ok. generalize (m_bis mk1) (m_bis mk2). intros l1. induction l1 as [|b1 l1 IH]; intros [|b2 l2] H; cbn [map] in H; try discriminate; [reflexivity|].
-  injection H as Hb Hr. cbn [forallb]. rewrite (IH l2 Hr). f_equal.
-  unfold bd in Hb. injection Hb as H1 H2 H3 H4. unfold bi_ds_ok, leaf_ds. rewrite H1, H2, H3, H4. reflexivity.
+  unfold bd at 1 3 in H. injection H as H1 H2 H3 H4 Hr. cbn [forallb]. rewrite (IH l2 Hr). f_equal.
+  unfold bi_ds_ok, leaf_ds. rewrite H1, H2, H3, H4. reflexivity.
 Qed.
 
 Section Bridge.
